@@ -316,7 +316,9 @@ theorem join_created_once_step (sp : Spec) (w : World) (ev : Event) (h : JoinRow
             · exact h
             · split
               · exact h
-              · exact JRU_setTask sp _ _ h
+              · split
+                · exact h
+                · exact JRU_setTask sp _ _ h
       | rpcResult t ok =>
         simp only
         split
